@@ -6,13 +6,13 @@ import SqLemmas.InvLemmas
 import SqLemmas.RandLemmas
 namespace Sq.Inv
 
-variable {Pc : List Op → Op → Nat → Prop} {Pb : String → Prop} {Pq : String → Prop}
-local notation "NP" => NPg Pc Pb Pq
-local notation "ObjNP" => ObjNPg Pc Pb Pq
-local notation "HeapNP" => HeapNPg Pc Pb Pq
-local notation "AllNP" => AllNPg Pc Pb Pq
+variable {Pc : List Op → Op → Nat → Prop} {Pb : String → Prop} {Pq : String → Prop} {Pr : Nat → Prop}
+local notation "NP" => NPg Pc Pb Pq Pr
+local notation "ObjNP" => ObjNPg Pc Pb Pq Pr
+local notation "HeapNP" => HeapNPg Pc Pb Pq Pr
+local notation "AllNP" => AllNPg Pc Pb Pq Pr
 
-variable (Pc Pb Pq) in
+variable (Pc Pb Pq Pr) in
 /-- the invariant for the engine answers still to be consumed -/
 def RxNPg (rx : List RxAns) : Prop :=
   ∀ a, a ∈ rx → match a with
@@ -20,18 +20,18 @@ def RxNPg (rx : List RxAns) : Prop :=
     | .all items => AllNP items
     | _ => True
 
-local notation "RxNP" => RxNPg Pc Pb Pq
+local notation "RxNP" => RxNPg Pc Pb Pq Pr
 
-variable (Pc Pb Pq) in
+variable (Pc Pb Pq Pr) in
 def StNPg (s : BState) : Prop := HeapNP s.heap ∧ RxNP s.rx
 
-local notation "StNP" => StNPg Pc Pb Pq
+local notation "StNP" => StNPg Pc Pb Pq Pr
 
-variable (Pc Pb Pq) in
+variable (Pc Pb Pq Pr) in
 def PresNPg (f : List Val → BState → BR) : Prop :=
   ∀ args s v s', AllNP args → StNP s → f args s = .ok (v, s') → NP v ∧ StNP s'
 
-local notation "PresNP" => PresNPg Pc Pb Pq
+local notation "PresNP" => PresNPg Pc Pb Pq Pr
 
 theorem allNP_nil : AllNP [] := fun _ h => by cases h
 theorem allNP_cons {v : Val} {vs : List Val} (h : NP v) (hs : AllNP vs) : AllNP (v :: vs) := by
@@ -57,11 +57,11 @@ theorem allNP_map_of {α : Type} (xs : List α) (f : α → Val) (hf : ∀ x, x 
   rw [← e]; exact hf x hx
 
 theorem heap_list {h : Heap} (hh : HeapNP h) {a : Nat} {xs : List Val} (hg : h.get? a = some (.list xs)) : AllNP xs :=
-  hh a _ hg
+  hh.1 a _ hg
 theorem heap_keys {h : Heap} (hh : HeapNP h) {a : Nat} {kvs : List (Val × Val)} (hg : h.get? a = some (.dict kvs)) :
-    AllNP (kvs.map (·.1)) := allNP_map_of kvs _ (fun kv hkv => (hh a _ hg kv hkv).1)
+    AllNP (kvs.map (·.1)) := allNP_map_of kvs _ (fun kv hkv => (hh.1 a _ hg kv hkv).1)
 theorem heap_vals {h : Heap} (hh : HeapNP h) {a : Nat} {kvs : List (Val × Val)} (hg : h.get? a = some (.dict kvs)) :
-    AllNP (kvs.map (·.2)) := allNP_map_of kvs _ (fun kv hkv => (hh a _ hg kv hkv).2)
+    AllNP (kvs.map (·.2)) := allNP_map_of kvs _ (fun kv hkv => (hh.1 a _ hg kv hkv).2)
 
 theorem st_alloc {s : BState} (hs : StNP s) {xs : List Val} (hx : AllNP xs) {v : Val} {s' : BState}
     (h : (Except.ok (allocList s xs) : BR) = .ok (v, s')) : NP v ∧ StNP s' := by
@@ -69,7 +69,7 @@ theorem st_alloc {s : BState} (hs : StNP s) {xs : List Val} (hx : AllNP xs) {v :
   simp only [allocList, Heap.alloc] at h
   injection h with h1 h2
   subst h1; subst h2
-  exact ⟨.ref, heapNP_push hs.1 hx, hs.2⟩
+  exact ⟨.ref (heapNP_fresh hs.1), heapNP_push hs.1 hx, hs.2⟩
 
 theorem st_allocD {s : BState} (hs : StNP s) {kvs : List (Val × Val)} (hx : ∀ kv, kv ∈ kvs → NP kv.1 ∧ NP kv.2) {v : Val}
     {s' : BState} (h : (Except.ok (allocDict s kvs) : BR) = .ok (v, s')) : NP v ∧ StNP s' := by
@@ -77,7 +77,7 @@ theorem st_allocD {s : BState} (hs : StNP s) {kvs : List (Val × Val)} (hx : ∀
   simp only [allocDict, Heap.alloc] at h
   injection h with h1 h2
   subst h1; subst h2
-  exact ⟨.ref, heapNP_push hs.1 hx, hs.2⟩
+  exact ⟨.ref (heapNP_fresh hs.1), heapNP_push hs.1 hx, hs.2⟩
 
 theorem st_ret {s : BState} (hs : StNP s) {r v : Val} {s' : BState} (hr : NP r) (h : ret r s = .ok (v, s')) :
     NP v ∧ StNP s' := by
@@ -133,7 +133,7 @@ theorem np_dict : PresNP b_dict := by
   split at h
   · exact st_allocD hs (fun kv hkv => by cases hkv) h
   · split at h
-    · rename_i hg; exact st_allocD hs (hs.1 _ _ hg) h
+    · rename_i hg; exact st_allocD hs (hs.1.1 _ _ hg) h
     · simp [U] at h
   · simp [U] at h
 
@@ -166,7 +166,7 @@ theorem np_items : PresNP b_items := by
   · split at h
     · rename_i hg
       refine st_alloc hs (allNP_map_of _ _ (fun kv hkv => ?_)) h
-      have := hs.1 _ _ hg kv hkv
+      have := hs.1.1 _ _ hg kv hkv
       exact .tuple (allNP_cons this.1 (allNP_cons this.2 allNP_nil))
     · cases h
   · simp [U] at h
@@ -373,9 +373,10 @@ theorem dictFind_np {h : Heap} {kvs : List (Val × Val)} {k v : Val}
 /-! ### deepcopy keeps data plain -/
 
 theorem deepcopy_np : ∀ (f : Nat),
-    (∀ h memo v v' h' memo', deepcopy f h memo v = some (v', h', memo') → HeapNP h → NP v → HeapNP h' ∧ NP v') ∧
-    (∀ h memo vs vs' h' memo', deepcopy.copyList f h memo vs = some (vs', h', memo') → HeapNP h → AllNP vs →
-      HeapNP h' ∧ AllNP vs') := by
+    (∀ h memo v v' h' memo', deepcopy f h memo v = some (v', h', memo') → HeapNP h → (∀ p, p ∈ memo → Pr p.2) → NP v →
+      HeapNP h' ∧ NP v' ∧ ∀ p, p ∈ memo' → Pr p.2) ∧
+    (∀ h memo vs vs' h' memo', deepcopy.copyList f h memo vs = some (vs', h', memo') → HeapNP h →
+      (∀ p, p ∈ memo → Pr p.2) → AllNP vs → HeapNP h' ∧ AllNP vs' ∧ ∀ p, p ∈ memo' → Pr p.2) := by
   intro f
   induction f with
   | zero => exact ⟨by intro h memo v v' h' memo' hh; simp [deepcopy] at hh,
@@ -383,7 +384,7 @@ theorem deepcopy_np : ∀ (f : Nat),
   | succ f ih =>
     obtain ⟨ihd, ihl⟩ := ih
     constructor
-    · intro h memo v v' h' memo' hh hhp hv
+    · intro h memo v v' h' memo' hh hhp hm hv
       unfold deepcopy at hh
       split at hh
       · split at hh
@@ -392,13 +393,14 @@ theorem deepcopy_np : ∀ (f : Nat),
           obtain ⟨rfl, rfl, rfl⟩ := hh
           cases hv with
           | tuple hall =>
-            obtain ⟨i1, f1⟩ := ihl _ _ _ _ _ _ hr hhp hall
-            exact ⟨i1, .tuple f1⟩
+            obtain ⟨i1, f1, m1⟩ := ihl _ _ _ _ _ _ hr hhp hm hall
+            exact ⟨i1, .tuple f1, m1⟩
         · simp at hh
       · split at hh
-        · simp only [Option.some.injEq, Prod.mk.injEq] at hh
+        · rename_i p hp
+          simp only [Option.some.injEq, Prod.mk.injEq] at hh
           obtain ⟨rfl, rfl, rfl⟩ := hh
-          exact ⟨hhp, .ref⟩
+          exact ⟨hhp, .ref (hm p (List.mem_of_find?_eq_some hp)), hm⟩
         · split at hh
           · rename_i a _ hfind _ xs hg
             simp only [Heap.alloc] at hh
@@ -407,8 +409,13 @@ theorem deepcopy_np : ∀ (f : Nat),
               simp only [Option.some.injEq, Prod.mk.injEq] at hh
               obtain ⟨rfl, rfl, rfl⟩ := hh
               have h1 : HeapNP (h.push (HObj.list [])) := heapNP_push hhp (fun v hv => by cases hv)
-              obtain ⟨i2, f2⟩ := ihl _ _ _ _ _ _ hr h1 (heap_list hhp hg)
-              exact ⟨heapNP_set i2 _ f2, .ref⟩
+              have hm1 : ∀ p, p ∈ (a, h.size) :: memo → Pr p.2 := by
+                intro p hp
+                rcases List.mem_cons.mp hp with e | e
+                · rw [e]; exact heapNP_fresh hhp
+                · exact hm p e
+              obtain ⟨i2, f2, m2'⟩ := ihl _ _ _ _ _ _ hr h1 hm1 (heap_list hhp hg)
+              exact ⟨heapNP_set i2 _ f2, .ref (heapNP_fresh hhp), m2'⟩
             · simp at hh
           · rename_i a _ hfind _ kvs hg
             simp only [Heap.alloc] at hh
@@ -417,8 +424,13 @@ theorem deepcopy_np : ∀ (f : Nat),
               simp only [Option.some.injEq, Prod.mk.injEq] at hh
               obtain ⟨rfl, rfl, rfl⟩ := hh
               have h1 : HeapNP (h.push (HObj.dict [])) := heapNP_push hhp (fun v hv => by cases hv)
-              obtain ⟨i2, f2⟩ := ihl _ _ _ _ _ _ hr h1 (heap_vals hhp hg)
-              refine ⟨heapNP_set i2 _ ?_, .ref⟩
+              have hm1 : ∀ p, p ∈ (a, h.size) :: memo → Pr p.2 := by
+                intro p hp
+                rcases List.mem_cons.mp hp with e | e
+                · rw [e]; exact heapNP_fresh hhp
+                · exact hm p e
+              obtain ⟨i2, f2, m2'⟩ := ihl _ _ _ _ _ _ hr h1 hm1 (heap_vals hhp hg)
+              refine ⟨heapNP_set i2 _ ?_, .ref (heapNP_fresh hhp), m2'⟩
               intro kv hkv
               obtain ⟨k, v⟩ := kv
               have hz := List.of_mem_zip hkv
@@ -427,13 +439,13 @@ theorem deepcopy_np : ∀ (f : Nat),
           · simp at hh
       · simp only [Option.some.injEq, Prod.mk.injEq] at hh
         obtain ⟨rfl, rfl, rfl⟩ := hh
-        exact ⟨hhp, hv⟩
-    · intro h memo vs vs' h' memo' hh hhp hvs
+        exact ⟨hhp, hv, hm⟩
+    · intro h memo vs vs' h' memo' hh hhp hm hvs
       cases vs with
       | nil =>
         simp only [deepcopy.copyList, Option.some.injEq, Prod.mk.injEq] at hh
         obtain ⟨rfl, rfl, rfl⟩ := hh
-        exact ⟨hhp, allNP_nil⟩
+        exact ⟨hhp, allNP_nil, hm⟩
       | cons x xs =>
         simp only [deepcopy.copyList] at hh
         split at hh
@@ -443,9 +455,9 @@ theorem deepcopy_np : ∀ (f : Nat),
           · rename_i xs' h2 m2 hxs
             simp only [Option.some.injEq, Prod.mk.injEq] at hh
             obtain ⟨rfl, rfl, rfl⟩ := hh
-            obtain ⟨i1, f1⟩ := ihd _ _ _ _ _ _ hx hhp (allNP_head hvs)
-            obtain ⟨i2, f2⟩ := ihl _ _ _ _ _ _ hxs i1 (allNP_tail hvs)
-            exact ⟨i2, allNP_cons f1 f2⟩
+            obtain ⟨i1, f1, mm1⟩ := ihd _ _ _ _ _ _ hx hhp hm (allNP_head hvs)
+            obtain ⟨i2, f2, mm2⟩ := ihl _ _ _ _ _ _ hxs i1 mm1 (allNP_tail hvs)
+            exact ⟨i2, allNP_cons f1 f2, mm2⟩
           · simp at hh
 
 theorem deepcopy'_np {h : Heap} {v v' : Val} {h' : Heap} (hh : HeapNP h) (hv : NP v)
@@ -455,7 +467,8 @@ theorem deepcopy'_np {h : Heap} {v v' : Val} {h' : Heap} (hh : HeapNP h) (hv : N
   · rename_i v1 h1 m1 hr
     simp only [Except.ok.injEq, Prod.mk.injEq] at hc
     obtain ⟨rfl, rfl⟩ := hc
-    exact (deepcopy_np _).1 _ _ _ _ _ _ hr hh hv
+    obtain ⟨a1, a2, _⟩ := (deepcopy_np _).1 _ _ _ _ _ _ hr hh (fun p hp => by cases hp) hv
+    exact ⟨a1, a2⟩
   · simp [U] at hc
 
 /-! ### arithmetic and item access -/
@@ -482,7 +495,7 @@ theorem pyAdd_np {h : Heap} {a b v : Val} {h' : Heap} (hh : HeapNP h) (ha : NP a
         · rename_i hx hy
           simp only [Heap.alloc] at he
           cases he
-          exact ⟨.ref, heapNP_push hh (allNP_append (heap_list hh hx) (heap_list hh hy))⟩
+          exact ⟨.ref (heapNP_fresh hh), heapNP_push hh (allNP_append (heap_list hh hx) (heap_list hh hy))⟩
         · cases he
       · simp [U] at he
       · simp [U] at he
@@ -537,13 +550,13 @@ theorem pyMulNative_np {h : Heap} {a b v : Val} {h' : Heap} (hh : HeapNP h) (ha 
           · rename_i hx _
             simp only [Heap.alloc] at he
             cases he
-            exact ⟨.ref, heapNP_push hh (allNP_repList (heap_list hh hx) _)⟩
+            exact ⟨.ref (heapNP_fresh hh), heapNP_push hh (allNP_repList (heap_list hh hx) _)⟩
           · cases he
         · split at he
           · rename_i hx _
             simp only [Heap.alloc] at he
             cases he
-            exact ⟨.ref, heapNP_push hh (allNP_repList (heap_list hh hx) _)⟩
+            exact ⟨.ref (heapNP_fresh hh), heapNP_push hh (allNP_repList (heap_list hh hx) _)⟩
           · cases he
         · simp [U] at he
         · simp [U] at he
@@ -653,7 +666,7 @@ theorem np_remove : PresNP b_remove := by
         · cases h
         · split at h
           · rename_i kvs' hd
-            exact st_ret (st_setDict hs _ (dictErase_np (hs.1 _ _ hg) hd)) .none h
+            exact st_ret (st_setDict hs _ (dictErase_np (hs.1.1 _ _ hg) hd)) .none h
           · cases h
       · simp [U] at h
     · simp [U] at h
@@ -719,7 +732,7 @@ theorem pyGetItem_np {s : BState} {c k v : Val} {s' : BState} (hs : StNP s) (hc 
       · split at h
         · cases h
         · rename_i x hf
-          exact st_ret hs (dictFind_np (hs.1 _ _ hg) hf) h
+          exact st_ret hs (dictFind_np (hs.1.1 _ _ hg) hf) h
         · cases h
     · simp [U] at h
   · rcases hnd with hnd | hq
@@ -748,7 +761,7 @@ theorem pySetItem_np {s : BState} {c k v : Val} {s' : BState} (hs : StNP s) (hk 
       · split at h
         · rename_i kvs' hd
           cases h
-          exact st_setDict hs _ (dictSet_np (hs.1 _ _ hg) hk hv hd)
+          exact st_setDict hs _ (dictSet_np (hs.1.1 _ _ hg) hk hv hd)
         · cases h
     · simp [U] at h
   · simp [U] at h
@@ -775,7 +788,7 @@ theorem pyInplace_np {s : BState} {k : ShortK} {cur v r : Val} {s' : BState} (hs
               · simp [U] at hext
             · simp [U] at hext
             · cases hext
-          exact st_ret (st_setList hs _ (allNP_append (heap_list hs.1 hg) hys)) .ref h
+          exact st_ret (st_setList hs _ (allNP_append (heap_list hs.1 hg) hys)) hc h
         · cases h
       · cases h
     · cases ha : pyAdd s.heap cur v with
@@ -795,7 +808,7 @@ theorem pyInplace_np {s : BState} {k : ShortK} {cur v r : Val} {s' : BState} (hs
       · rename_i hg _
         split at h
         · simp [U] at h
-        · refine st_ret (st_setList hs _ ?_) .ref h
+        · refine st_ret (st_setList hs _ ?_) hc h
           intro x hx
           obtain ⟨l, hl, hxl⟩ := List.mem_flatten.mp hx
           have := List.eq_of_mem_replicate hl
@@ -991,7 +1004,7 @@ theorem bDelItem_np {s : BState} {c k r : Val} {s' : BState} (hs : StNP s) (hk :
         · cases h
         · split at h
           · rename_i kvs' hd
-            exact st_ret (st_setDict hs _ (dictErase_np (hs.1 _ _ hg) hd)) .none h
+            exact st_ret (st_setDict hs _ (dictErase_np (hs.1.1 _ _ hg) hd)) .none h
           · cases h
       · rename_i hg
         split at h
@@ -1077,7 +1090,7 @@ theorem np_sum : PresNP b_sum := by
         obtain ⟨n1, n2⟩ := foldl_add_np _ _ _ _ _ (heap_list hs.1 hg) .int hs.1 hr
         exact st_ret (s := { s with heap := h0 }) ⟨n2, hs.2⟩ n1 h
       · cases h
-    · exact st_ret hs .ref h
+    · exact st_ret hs (allNP_head ha) h
   · exact st_ret hs (allNP_head ha) h
   · cases h
 
@@ -1098,7 +1111,7 @@ theorem np_get : PresNP b_get := by
             · split at h
               · cases h
               · rename_i x hf
-                exact st_ret hs (dictFind_np (hs.1 _ _ hg) hf) h
+                exact st_ret hs (dictFind_np (hs.1.1 _ _ hg) hf) h
               · refine st_ret hs ?_ h
                 cases rest with
                 | nil => exact .none
